@@ -31,6 +31,8 @@ import (
 	"sync"
 	"testing"
 
+	"go.opentelemetry.io/otel"
+	"go.opentelemetry.io/otel/attribute"
 	"go.opentelemetry.io/otel/trace"
 )
 
@@ -628,6 +630,179 @@ func c09GenEnv(r *vRand) (gen string, f []string, arg string) {
 	return gen, []string{nameTok, ha, pf}, arg
 }
 
+// ---- provider: which sampler NewTracerProvider ends up with (env first, then the options, then the default)
+// Line: `prov <gen> <name|-> <hasArg> <pf> <nanconv> <opt;opt;…|-> => <sampler structure> <error handed to otel.Handle 0|1>`
+// opt: nil (WithSampler(nil)) · A · N · R<ftok> (TraceIDRatioBased) · PA · PN · PR<ftok> (ParentBased(…))
+func c09ProvOpt(tok string) Sampler {
+	switch {
+	case tok == "nil":
+		return nil
+	case tok == "A":
+		return AlwaysSample()
+	case tok == "N":
+		return NeverSample()
+	case tok == "PA":
+		return ParentBased(AlwaysSample())
+	case tok == "PN":
+		return ParentBased(NeverSample())
+	case strings.HasPrefix(tok, "PR"):
+		return ParentBased(TraceIDRatioBased(c09F(tok[2:])))
+	case strings.HasPrefix(tok, "R"):
+		return TraceIDRatioBased(c09F(tok[1:]))
+	}
+	panic("bad prov option " + tok)
+}
+
+func c09RunProv(f []string, arg string) string {
+	// f: name hasArg pf nanconv opts
+	if f[0] == "-" {
+		os.Unsetenv(tracesSamplerKey)
+	} else {
+		os.Setenv(tracesSamplerKey, vUnhex(f[0]))
+	}
+	if f[1] == "1" {
+		os.Setenv(tracesSamplerArgKey, arg)
+	} else {
+		os.Unsetenv(tracesSamplerArgKey)
+	}
+	handled := 0
+	otel.SetErrorHandler(otel.ErrorHandlerFunc(func(error) { handled++ }))
+	var opts []TracerProviderOption
+	if f[4] != "-" {
+		for _, t := range strings.Split(f[4], ";") {
+			opts = append(opts, WithSampler(c09ProvOpt(t)))
+		}
+	}
+	tp := NewTracerProvider(opts...)
+	st := c09SamplerStruct(tp.sampler)
+	_ = tp.Shutdown(context.Background())
+	otel.SetErrorHandler(handler)
+	os.Unsetenv(tracesSamplerKey)
+	os.Unsetenv(tracesSamplerArgKey)
+	h := "0"
+	if handled > 0 {
+		h = "1"
+	}
+	if handled > 1 {
+		h = "2"
+	}
+	return st + " " + h
+}
+
+func c09GenProv(r *vRand) (string, []string, string) {
+	gen, f, arg := c09GenEnv(r)
+	if r.Intn(3) == 0 { // environment unset: options / default alone
+		f[0], gen = "-", "unset"
+	}
+	n := vPick(r, []int{0, 0, 1, 1, 2, 3, 4})
+	opts := "-"
+	if n > 0 {
+		xs := make([]string, n)
+		for i := range xs {
+			switch r.Intn(8) {
+			case 0, 1, 2:
+				xs[i] = "nil"
+			case 3:
+				xs[i] = "A"
+			case 4:
+				xs[i] = "N"
+			case 5:
+				xs[i] = "R" + c09Ftok(c09RandRatio(r))
+			case 6:
+				xs[i] = vPick(r, []string{"PA", "PN"})
+			default:
+				xs[i] = "PR" + c09Ftok(c09RandRatio(r))
+			}
+		}
+		opts = strings.Join(xs, ";")
+	}
+	return "prov-" + gen, f, arg + "\x00" + opts
+}
+
+// ---- what the sampler is shown of the start configuration and what it contributes (SamplingResult.Attributes)
+// Line: `sparams <gen> <kind> <hex name> <start attrs k=v;…|-> <links> <decision> <sampler attrs k=v;…|->
+//        => <hex seen name> <seen kind> <seen attrs> <seen links> <recording> <span kind|0> <span attrs|->`
+type c09SPSampler struct {
+	dec   SamplingDecision
+	attrs []attribute.KeyValue
+	seen  *SamplingParameters
+}
+
+func (s c09SPSampler) ShouldSample(p SamplingParameters) SamplingResult {
+	*s.seen = p
+	return SamplingResult{Decision: s.dec, Attributes: s.attrs, Tracestate: trace.SpanContextFromContext(p.ParentContext).TraceState()}
+}
+func (s c09SPSampler) Description() string { return "c09SPSampler" }
+
+func c09SPAttrs(tok string) []attribute.KeyValue {
+	if tok == "-" {
+		return nil
+	}
+	var out []attribute.KeyValue
+	for _, e := range strings.Split(tok, ";") {
+		p := strings.SplitN(e, "=", 2)
+		v, _ := strconv.ParseInt(p[1], 10, 64)
+		out = append(out, attribute.Int64("k"+p[0], v))
+	}
+	return out
+}
+
+func c09SPRender(kvs []attribute.KeyValue) string {
+	if len(kvs) == 0 {
+		return "-"
+	}
+	xs := make([]string, len(kvs))
+	for i, a := range kvs {
+		xs[i] = strings.TrimPrefix(string(a.Key), "k") + "=" + strconv.FormatInt(a.Value.AsInt64(), 10)
+	}
+	return strings.Join(xs, ";")
+}
+
+func c09RunSParams(f []string) string {
+	// f: kind name cfgattrs nlinks dec samplerattrs
+	kind, _ := strconv.Atoi(f[0])
+	nl, _ := strconv.Atoi(f[3])
+	dec, _ := strconv.Atoi(f[4])
+	var seen SamplingParameters
+	tp := NewTracerProvider(WithSampler(c09SPSampler{dec: SamplingDecision(dec), attrs: c09SPAttrs(f[5]), seen: &seen}))
+	defer func() { _ = tp.Shutdown(context.Background()) }()
+	so := []trace.SpanStartOption{trace.WithSpanKind(trace.SpanKind(kind))}
+	if cfg := c09SPAttrs(f[2]); cfg != nil {
+		so = append(so, trace.WithAttributes(cfg...))
+	}
+	if nl > 0 {
+		links := make([]trace.Link, nl)
+		for i := range links {
+			links[i].SpanContext = trace.NewSpanContext(trace.SpanContextConfig{TraceID: trace.TraceID{1}, SpanID: trace.SpanID{byte(i + 1)}})
+		}
+		so = append(so, trace.WithLinks(links...))
+	}
+	_, span := tp.Tracer("verif").Start(context.Background(), vUnhex(f[1]), so...)
+	rec, sk, attrs := "0", 0, "-"
+	if ro, ok := span.(ReadOnlySpan); ok && span.IsRecording() {
+		rec, sk, attrs = "1", int(ro.SpanKind()), c09SPRender(ro.Attributes())
+	}
+	span.End()
+	return fmt.Sprintf("%s %d %s %d %s %d %s", vHex(seen.Name), int(seen.Kind), c09SPRender(seen.Attributes), len(seen.Links), rec, sk, attrs)
+}
+
+func c09GenSParams(r *vRand) (string, []string) {
+	attrs := func(max int) string {
+		n := r.Intn(max + 1)
+		if n == 0 {
+			return "-"
+		}
+		xs := make([]string, n)
+		for i := range xs {
+			xs[i] = strconv.Itoa(r.Intn(5)) + "=" + strconv.Itoa(r.Intn(200)-100)
+		}
+		return strings.Join(xs, ";")
+	}
+	kind := vPick(r, []int{0, 1, 2, 3, 4, 5, 6, 7, 255})
+	dec := vPick(r, []int{0, 1, 2, 2, 1, 3})
+	return "sp", []string{strconv.Itoa(kind), vHex(vValidStr(r, 3)), attrs(5), strconv.Itoa(vPick(r, []int{0, 0, 1, 3})), strconv.Itoa(dec), attrs(4)}
+}
+
 // ---- tree generation
 var c09TraceStates = []string{"", "", "a=1", "b=2,a=1", "vendor@sys=x:y", "k=" + strings.Repeat("v", 40), "a=1,b=2,c=3,d=4"}
 
@@ -747,7 +922,14 @@ func c09GenTree(r *vRand, nanc uint64) (string, []string) {
 			nr = "1"
 		}
 		var gt, gs string
-		if r.Intn(6) == 0 {
+		if i > 0 && r.Intn(8) == 0 {
+			// a custom generator that repeats itself: the ids it returned for an earlier node (taken verbatim by newSpan)
+			prev := f[len(f)-7*(1+r.Intn(i)):]
+			gt, gs = prev[3], prev[4]
+			if r.Intn(2) == 0 {
+				gt = c09RandValidID(r, 16)
+			}
+		} else if r.Intn(6) == 0 {
 			gt, gs = c09RandID(r, 16), c09RandID(r, 8)
 		} else {
 			gt, gs = c09RandValidID(r, 16), c09RandValidID(r, 8)
@@ -796,6 +978,11 @@ func TestVerifC09Sampling(t *testing.T) {
 			case "env":
 				in[3] = strconv.FormatUint(nanc, 10)
 				out.Line("env %s %s => %s", f[1], strings.Join(in, " "), c09RunEnv(in, c09ArgFor(in[2])))
+			case "sparams":
+				out.Line("sparams %s %s => %s", f[1], strings.Join(in, " "), c09RunSParams(in))
+			case "prov":
+				in[3] = strconv.FormatUint(nanc, 10)
+				out.Line("prov %s %s => %s", f[1], strings.Join(in, " "), c09RunProv(in, c09ArgFor(in[2])))
 			}
 		}
 		return
@@ -838,6 +1025,16 @@ func TestVerifC09Sampling(t *testing.T) {
 			gen, f, arg := c09GenEnv(r)
 			f = append(f, strconv.FormatUint(nanc, 10))
 			out.Line("env %s %s => %s", gen, strings.Join(f, " "), c09RunEnv(f, arg))
+			i++
+		case k < 7:
+			gen, f := c09GenSParams(r)
+			out.Line("sparams %s %s => %s", gen, strings.Join(f, " "), c09RunSParams(f))
+			i++
+		case k < 9:
+			gen, f, ao := c09GenProv(r)
+			p := strings.SplitN(ao, "\x00", 2)
+			f = append(f, strconv.FormatUint(nanc, 10), p[1])
+			out.Line("prov %s %s => %s", gen, strings.Join(f, " "), c09RunProv(f, p[0]))
 			i++
 		default:
 			gen, f := c09GenTree(r, nanc)
